@@ -6,4 +6,21 @@ static inline sid sid_new(void) { return 0; }
 static inline bool sid_empty(const sid *s) { return *s == 0; }
 static inline bool sid_eq(sid a, sid b) { return a == b; }
 static inline bool sid_keyeq(sid a, sid b) { return a == b; }
+/* concatenation: empty operands are neutral; otherwise some non-empty string (which one is unconstrained:
+ * an over-approximation that keeps exactly what identity-strings can say - emptiness)          */
+#ifdef CBMC
+uint64_t nondet_sid_concat(void);
+static inline sid sid_concat(sid a, sid b)
+{
+    if (a == 0)
+        return b;
+    if (b == 0)
+        return a;
+    sid r = nondet_sid_concat();
+    __CPROVER_assume(r != 0);
+    return r;
+}
+#else
+static inline sid sid_concat(sid a, sid b) { return a == 0 ? b : (b == 0 ? a : a * 1000003u + b); }
+#endif
 #endif
